@@ -459,3 +459,8 @@ func CallsThrough(fn *ssa.Function, pred func(ssa.CallInstruction) bool, depth i
 	}
 	return out
 }
+
+// InModule: fn is declared in a package of the analysed module.
+func InModule(fn *ssa.Function) bool {
+	return fn != nil && fn.Pkg != nil && fn.Pkg.Pkg != nil && strings.HasPrefix(fn.Pkg.Pkg.Path(), Mod)
+}
